@@ -74,6 +74,12 @@ CLAIMED = {
         note="One fixed 9-option program; rename tables: multiple files, duplicates (both inversion orders), inversion on a non-bool, lower-case old name, alias of a choice member, alias of an undefined option (only 'nothing raises / no defined option changes' required there).",
         design_ref="DESIGN.md section 3, C11",
     ),
+    "C08": dict(
+        technique="TLA+ model of loading under a defaults policy (spec/KStore.tla LoadP: default-marked entries never become user values, mismatch detection in dependency order, injection of the stored value as sole default under policy sdkconfig, promptless entries ignored, choice handling) with injected defaults in the evaluator (KEval EvalI); TLC (spec/MC_Policy.tla) compares every case with the real instance after the load and after each edit and evaluates both clauses on model and observations",
+        text="Model checking: each case is a file written by the real tool under an old program and loaded under the same or a singly mutated program with policy sdkconfig or kconfig, followed by edits; TLC evaluates LoadP and the edits on the specification, compares values, default markers and the reported mismatch for the mutated option with the real instance, checks NoPin on the model, and evaluates NoPin, PolicyKconfig, PolicySdkconfig and PromptlessIgnored on the observations (including real loads of the stripped file).",
+        note="Single-mutation tree pairs (default literal/condition, range, prompt removed, option added/removed, choice default); <= 2 edits per case; interactive policy excluded; stored defaults outside the new active range and the reporting of mismatches of options other than the mutated one are left open.",
+        design_ref="DESIGN.md section 3, C08",
+    ),
 }
 
 REASON_PENDING = "check not built yet in this session (planned in DESIGN.md section 3); not claimed until its TLA+ model and conformance harness exist"
